@@ -590,6 +590,16 @@ def m_option(ctx):
         return on_variant(ex, st, o, {'Some': tk, 'None': lambda s2, o2: none()})
     if op == 'or':
         return on_variant(ex, st, o, {'Some': lambda s2, o2: o2, 'None': lambda s2, o2: s2.tr(A[1])})
+    if op in ('replace', 'insert'):
+        def rp(had):
+            def f(s2, o2):
+                old = some(P(s2, o2)) if had else none()
+                o2.discr = 'Some'; o2.fields[('Some', 0)] = s2.tr(A[1])
+                if op == 'insert':
+                    return Ref(('field', o2, ('Some', 0, variant_payload_type(o2.ty, 'Some'))))
+                return old
+            return f
+        return on_variant(ex, st, o, {'Some': rp(True), 'None': rp(False)})
     if op in CLOSURE_SPECS:
         return closure_variants(ctx, o, op, True)
     raise MirError('Option::' + op)
